@@ -195,6 +195,10 @@ func tokenBridgeRegisterChain(
 		return nil, errors.New("invalid emitter address (expected 32 bytes)")
 	}
 
+	if len(req.Module) > 32 {
+		return nil, errors.New("invalid module (expected at most 32 bytes)")
+	}
+
 	emitterAddress := vaa.Address{}
 	copy(emitterAddress[:], b)
 
@@ -224,6 +228,9 @@ func tokenBridgeUpgradeContract(
 	if err != nil {
 		return nil, errors.New("invalid payload encoding (expected hex)")
 	}
+	if len(req.Module) > 32 {
+		return nil, errors.New("invalid module (expected at most 32 bytes)")
+	}
 	v := vaa.CreateGovernanceVAA(governanceChainId, governanceEmitterAddress, timestamp, nonce, sequence, targetChainId, guardianSetIndex,
 		vaa.BodyTokenBridgeUpgradeContract{
 			Module:  req.Module,
@@ -243,6 +250,12 @@ func tokenBridgeDestroyUnexecutedSequenceContracts(
 	sequence uint64,
 	targetChainId vaa.ChainID,
 ) (*vaa.VAA, error) {
+	if req.EmitterChain > math.MaxUint16 {
+		return nil, errors.New("invalid emitter chain")
+	}
+	if len(req.Sequences) > math.MaxUint16 {
+		return nil, errors.New("too many sequences")
+	}
 	v := vaa.CreateGovernanceVAA(governanceChainId, governanceEmitterAddress, timestamp, nonce, sequence, targetChainId, guardianSetIndex,
 		vaa.BodyTokenBridgeDestroyContracts{
 			EmitterChain: vaa.ChainID(req.EmitterChain),
@@ -262,6 +275,9 @@ func tokenBridgeUpdateMinimalConsistencyLevel(
 	sequence uint64,
 	targetChainId vaa.ChainID,
 ) (*vaa.VAA, error) {
+	if req.NewConsistencyLevel > math.MaxUint8 {
+		return nil, errors.New("invalid consistency level")
+	}
 	v := vaa.CreateGovernanceVAA(governanceChainId, governanceEmitterAddress, timestamp, nonce, sequence, targetChainId, guardianSetIndex,
 		vaa.BodyTokenBridgeUpdateMinimalConsistencyLevel{
 			NewConsistencyLevel: uint8(req.NewConsistencyLevel),
@@ -282,6 +298,9 @@ func tokenBridgeUpdateRefundAddress(
 	address, err := hex.DecodeString(req.NewRefundAddress)
 	if err != nil {
 		return nil, errors.New("invalid refund address encoding (expected hex)")
+	}
+	if len(address) > math.MaxUint16 {
+		return nil, errors.New("invalid refund address (too long)")
 	}
 	v := vaa.CreateGovernanceVAA(governanceChainId, governanceEmitterAddress, timestamp, nonce, sequence, targetChainId, guardianSetIndex,
 		vaa.BodyTokenBridgeUpdateRefundAddress{
@@ -327,7 +346,7 @@ func (s *nodePrivilegedService) InjectGovernanceVAA(ctx context.Context, req *no
 		case *nodev1.GovernanceMessage_UpdateRefundAddress:
 			v, err = tokenBridgeUpdateRefundAddress(s.governanceChainId, s.governanceEmitterAddress, payload.UpdateRefundAddress, timestamp, req.CurrentSetIndex, message.Nonce, message.Sequence, targetChainId)
 		default:
-			panic(fmt.Sprintf("unsupported VAA type: %T", payload))
+			return nil, status.Errorf(codes.InvalidArgument, "unsupported VAA type: %T", payload)
 		}
 		if err != nil {
 			return nil, status.Error(codes.InvalidArgument, err.Error())
